@@ -74,6 +74,10 @@ class KJob:
 BENIGN = [r"pointer relation: pointer NULL"]   # begin()/end() of a never-allocated std::vector are both null and get compared: a translation artefact, not an access
 
 
+# units the verified ones refer to from functions no kernel reaches (the native link needs them; the CBMC side drops unreached functions)
+REPLAY_EXTRA_UNITS = ["Bpp/Text/StringTokenizer.cpp", "Bpp/Text/NestedStringTokenizer.cpp"]
+
+
 def native_replay(kernel_cpp, units, harness_c, function, defines, values, workdir):
     """re-run a CBMC counterexample against the real code: the same harness source compiled natively (nondet_* return the recorded values in call order),
     linked with the kernels and the real units built by g++ with ASan/UBSan and libstdc++ assertions"""
@@ -89,7 +93,7 @@ def native_replay(kernel_cpp, units, harness_c, function, defines, values, workd
     cmd = ["gcc", "-O1", "-g", "-fsanitize=address,undefined", "-fno-sanitize-recover=undefined", "-I", EK, "-c", harness_c, "-o", exe + "_h.o"] + ["-D" + x for x in defines]
     build.must(cmd); objs.append(exe + "_h.o")
     build.must(["gcc", "-O1", "-fsanitize=address,undefined", "-c", shim, "-o", exe + "_s.o"]); objs.append(exe + "_s.o")
-    build.must(["g++", "-std=c++17", "-O1", "-g", "-D_GLIBCXX_ASSERTIONS", "-fsanitize=address,undefined", "-fno-sanitize-recover=undefined", "-w", "-I", build.SRC] + objs + [kernel_cpp] + [os.path.join(build.SRC, u) for u in units] + ["-o", exe])
+    build.must(["g++", "-std=c++17", "-O1", "-g", "-D_GLIBCXX_ASSERTIONS", "-fsanitize=address,undefined", "-fno-sanitize-recover=undefined", "-w", "-I", build.SRC] + objs + [kernel_cpp] + [os.path.join(build.SRC, u) for u in units + REPLAY_EXTRA_UNITS if os.path.exists(os.path.join(build.SRC, u))] + ["-o", exe])
     try:
         p = subprocess.run([exe] + [str(v) for v in values], stdout=subprocess.PIPE, stderr=subprocess.STDOUT, text=True, timeout=60)
         out = p.stdout[-1500:]
